@@ -288,6 +288,21 @@ func orderInsensitive(prog *load.Program, info *types.Info, fd *ast.FuncDecl, rs
 		})
 		return ok
 	}
+	// idiom 0: keyed transfer — the body is one store `other[key] = e` into another map under the range key,
+	// e built from the key and value alone: every iteration writes its own entry, the order cannot show
+	if len(rs.Body.List) == 1 {
+		if as, ok := rs.Body.List[0].(*ast.AssignStmt); ok && as.Tok == token.ASSIGN && len(as.Lhs) == 1 && len(as.Rhs) == 1 {
+			if ix, ok := as.Lhs[0].(*ast.IndexExpr); ok {
+				mid, isID := ix.X.(*ast.Ident)
+				kid, isKey := ix.Index.(*ast.Ident)
+				if isID && isKey && rs.Key != nil && sameIdent(info, kid, rs.Key) {
+					if _, isMap := info.TypeOf(ix.X).Underlying().(*types.Map); isMap && types.ExprString(rs.X) != mid.Name && elemOK(as.Rhs[0]) {
+						return true, "keyed transfer into another map (one entry per key)"
+					}
+				}
+			}
+		}
+	}
 	for _, st := range rs.Body.List {
 		// n++ of the fill counter
 		if inc, isInc := st.(*ast.IncDecStmt); isInc && inc.Tok == token.INC {
